@@ -112,3 +112,16 @@ Proof.
   apply map_ext. intros f. unfold check_component, spec_cmp_field. cbn [sel_for]. cbn [sel_for fst snd cf_fld cf_expr].
   cbn [sel_for]. destruct (eq_selected (ha_cmp (fe_hattrs f))); reflexivity.
 Qed.
+
+(** ** Eq: on an accepted field the assertion is about exactly what `==` compares *)
+Lemma eq_selected_is_partial_eq_selection c :
+  negb (is_own (selected CEq c) && has_custom c) = true ->
+  eq_selected c = selected CPartialEq c.
+Proof.
+  unfold eq_selected, has_custom, selected, attr_selection, specific_first, cmp_variants.
+  cbn [filter affects flat_map by_counts cmpop_eqb cmp_get app existsb];
+    repeat match goal with
+           | |- context [c_by ?x] => destruct (c_by x); cbn
+           | |- context [c_key ?x] => destruct (c_key x); cbn
+           end; try reflexivity; intros H; discriminate H.
+Qed.
